@@ -28,7 +28,9 @@ RULE = ("per scheme: keys from the scheme's own key generation (several sizes); 
         "delegation; a case is non-trivial when a library routine is invoked; distinct = distinct (routine, class, inputs)")
 ASSUMPTIONS = ["Python integers, hashlib / hmac and the curve model are the reference; MGF1, KDF2, OAEP and EME-PKCS1-v1_5 "
                "follow RFC 8017 / IEEE 1363",
-               "shared secrets are converted to octets as fixed-length field elements (SEC 1 2.3.5) before the KDF",
+               "ECDH / ECMQV shared secrets are converted to octets as fixed-length field elements (SEC 1 2.3.5) before the "
+               "KDF; ECIES keys follow the conversion the source documents as deliberate (BigInteger-style x-coordinate, "
+               "KDF2, AES-128-CBC with zero IV, HMAC-SHA-256 over the body) - the AES layer itself is judged by C14",
                "pairing-based protocols are judged with pc_map, g1/g2/gt arithmetic, hash-to-curve and gt_write_bin of the "
                "library (monitored by C04 C07 C12 C13), never with the cp_* routine under test",
                "plaintext spaces: RSA 0..k-2hLen-2 bytes (OAEP), Rabin 1..k-10 bytes, Benaloh Z_t, Paillier Z_n, "
@@ -779,9 +781,16 @@ def run_pke(ctx):
     q = ctx.quick
     if ctx.shard == 0:
         w.rabin_zero()      # fatal on some trees: first, in one shard (a restart repeats the shard from its start)
+        if not q:
+            # block = 2 passes the primality test of cp_bdpe_gen but no prime q has gcd(2, q - 1) = 1: the search never ends
+            def b2():
+                pub, prv = R.S.vf_bdpe_new(), R.S.vf_bdpe_new()
+                res = R.call("cp_bdpe_gen", pub, prv, 2, 256)
+                ctx.check(not w.ok(res), ctx.cur_key + "|accepted")
+            w.case("cp_bdpe_gen|block=2", [2, 256], b2, budget=15)
     for i, bits in enumerate([1024, 768, 520] if q else [1024, 1018, 768, 600, 520, 512]):
         w.rabin(bits, heavy=(i == 0))
-    for block, bits in ([(3, 512), (47, 512), (251, 1024)] if q else [(2, 512), (3, 512), (47, 512), (251, 1024), (65521, 512)]):
+    for block, bits in ([(3, 512), (47, 512), (251, 1024)] if q else [(3, 512), (47, 512), (251, 1024), (65521, 512)]):
         w.benaloh(block, bits)
     for bits in ([512, 256] if q else [512, 384, 256, 128]):
         w.paillier(bits)
@@ -1269,7 +1278,7 @@ class Pair(W):
                         return
                     good, back = dec(d, c)
                     ctx.check(good and back == m, "%s|small|round-trip" % d, {"m": m, "got": back, "ok": good})
-                self.case("%s|%s" % (enc, "m=0" if m == 0 else "small"), [cname, m], f, budget=300)
+                self.case("%s|%s" % (enc, "m=0" if m == 0 else "small"), [cname, m], f, budget=40)
         for it in range(ctx.n(4, 30)):
             a, b, c, d = [rng.randrange(0, 13) for _ in range(4)]
             if it == 0:
@@ -1305,7 +1314,7 @@ class Pair(W):
                 if ctx.check(self.ok(R.call("cp_bgn_add", gts[0], gts[0], gts[0])), "cp_bgn_add|aliased|unexpected-error"):
                     g5, v5 = dec("cp_bgn_dec", gts[0])
                     ctx.check(g5 and v5 == 2 * a * b, "cp_bgn_dec|doubled|value", {"a": a, "b": b, "got": v5})
-            self.case("cp_bgn_mul|%s" % ("zero-factor" if a * b == 0 else "small"), [cname, a, b, c, d], f, budget=300)
+            self.case("cp_bgn_mul|%s" % ("zero-factor" if a * b == 0 else "small"), [cname, a, b, c, d], f, budget=40)
 
     # ------------------------------------------------------------------ SOK identity-based key agreement
     def sokaka(self, cname):
@@ -1524,6 +1533,75 @@ class Pair(W):
             self.case("pc_map_mpc|%s" % ("identity-share" if it == 1 else "random"), [cname, it], f)
 
 
+    # ------------------------------------------------------------------ scalar multiplication on shared inputs
+    def mpc_scalar(self, cname):
+        """g1_mul / g2_mul / gt_exp on additively shared scalar and group element with a multiplication triple"""
+        ctx, R, rng = self.ctx, self.R, self.rng
+        K, n = R.K, R.n
+        ms = K["sizeof_mt_st"]
+        oa, ob, oc, ob1, oc1 = K["off_mt_st_a"], K["off_mt_st_b"], K["off_mt_st_c"], K["off_mt_st_b1"], K["off_mt_st_c1"]
+        nb = R.bn(n)
+        groups = {"g1": ("g1", R.ep_sz, "g1_mul_gen", "g1_mul", "g1_add", "g1_sub", "g1_norm", "g1_cmp", "g1_rand"),
+                  "g2": ("g2", R.g2_sz, "g2_mul_gen", "g2_mul", "g2_add", "g2_sub", "g2_norm", "g2_cmp", "g2_rand"),
+                  "gt": ("gt", R.gt_sz, None, "gt_exp", "gt_mul", None, None, "gt_cmp", "gt_rand")}
+        for gname, (kind, sz, mulgen, mul, add, sub, norm, cmp_, rnd) in groups.items():
+            fn = {"g1": "g1_mul", "g2": "g2_mul", "gt": "gt_exp"}[gname]
+            for it in range(ctx.n(3, 25)):
+                kv = rng.choice([0, 1, n - 1]) if it == 0 else rng.randrange(n)
+
+                def f():
+                    tri = R.S.vf_c05_mt_new(2)
+                    R.call("mpc_mt_gen", tri, nb)
+                    P, Pexp, T = R.new(kind), R.new(kind), R.new(kind)
+                    p_, d_, b_, c_ = R.arr(kind, 2), R.arr(kind, 2), R.arr(kind, 2), R.arr(kind, 2)
+                    l_, kb = R.arr("bn", 2), R.new("bn")
+                    gen = R.new("gt")
+                    R.call("gt_get_gen", gen)
+
+                    def smul(out, k):
+                        R.bn_put(kb, k)
+                        if mulgen:
+                            R.call(mulgen, out, kb)
+                        else:
+                            R.call("gt_exp", out, gen, kb)
+                    R.call(rnd, P)
+                    R.bn_put(kb, kv)
+                    R.call(mul, Pexp, P, kb)
+                    if norm:
+                        R.call(norm, Pexp, Pexp)
+                    # share the element and the scalar
+                    R.call(rnd, p_ + sz)
+                    if gname == "gt":
+                        R.call("gt_inv", T, p_ + sz)
+                        R.call("gt_mul", p_, P, T)
+                    else:
+                        R.call(sub, p_, P, p_ + sz)
+                        R.call(norm, p_, p_)
+                    k1 = rng.randrange(n)
+                    ks = [(kv - k1) % n, k1]
+                    for i in range(2):
+                        smul(b_ + i * sz, R.bn_val(tri + i * ms + ob))
+                        smul(c_ + i * sz, R.bn_val(tri + i * ms + oc))
+                        R.wr_sz(tri + i * ms + ob1, b_ + i * sz)
+                        R.wr_sz(tri + i * ms + oc1, c_ + i * sz)
+                    for i in range(2):
+                        R.bn_put(kb, ks[i])
+                        R.call(fn + "_lcl", l_ + i * R.bn_sz, d_ + i * sz, kb, p_ + i * sz, tri + i * ms)
+                    R.call(fn + "_bct", l_, d_)
+                    a = (R.bn_val(tri + oa) + R.bn_val(tri + ms + oa)) % n
+                    ctx.check(R.bn_val(l_) == (kv - a) % n and R.bn_val(l_ + R.bn_sz) == R.bn_val(l_) and R.call(cmp_, d_, d_ + sz).i == R.EQ,
+                              "%s_bct|random|value" % fn, {"d": hx(R.bn_val(l_))})
+                    for i in range(2):
+                        R.call(fn + "_mpc", d_ + i * sz, l_ + i * R.bn_sz, d_ + i * sz, tri + i * ms, i)
+                    R.call(add, T, d_, d_ + sz)
+                    if norm:
+                        R.call(norm, T, T)
+                    ctx.check(R.call(cmp_, T, Pexp).i == R.EQ, ctx.cur_key + "|value", {"k": hx(kv)})
+                    for q_ in (tri, P, Pexp, T, p_, d_, b_, c_, l_, kb, gen):
+                        R.free(q_)
+                self.case("%s_mpc|%s" % (fn, "k-boundary" if it == 0 else "random"), [cname, hx(kv)], f)
+
+
 def run_pairing(ctx):
     R = PX(ctx.cfg)
     names = R.pairing_names()
@@ -1538,6 +1616,7 @@ def run_pairing(ctx):
         w.pbpsi(nm)
         w.delegation(nm)
         w.mpc_pairing(nm)
+        w.mpc_scalar(nm)
         w.finish()
 
 
